@@ -132,6 +132,14 @@ func runC15(c c15case, rep *lib.Report) {
 			w.Write([]byte("ok"))
 		})
 		req, _ = lib.ParseRequest(lib.RawRequest(c.method, "/", nil, bodyOf(c.size), c.chunk))
+		if c.chunk < 0 {
+			// the framing of a streamed HTTP/2 upload: length unknown (-1), no transfer-encoding, body read until EOF
+			req.ContentLength, req.TransferEncoding = -1, nil
+			req.Header.Del("Content-Length")
+			req.Proto, req.ProtoMajor, req.ProtoMinor = "HTTP/2.0", 2, 0
+			req.Body = io.NopCloser(bytes.NewReader(bodyOf(c.size)))
+			rep.Count("requests_of_unknown_length_without_chunking")
+		}
 	} else {
 		opts = append(opts, buffer.MemResponseBodyBytes(int64(c.lim.mem)))
 		if c.lim.max > 0 {
@@ -183,6 +191,8 @@ func runC15(c c15case, rep *lib.Report) {
 	framing := "declared"
 	if c.chunk > 0 {
 		framing = "chunked"
+	} else if c.chunk < 0 {
+		framing = "unknown-length"
 	}
 	if c.side == "request" {
 		over := c.lim.max > 0 && c.size > c.lim.max
@@ -270,7 +280,7 @@ func c15cases(tier string) []c15case {
 	}
 	for _, l := range lims {
 		for _, size := range sizesFor(l) {
-			for _, chunk := range []int{0, 1, 5} {
+			for _, chunk := range []int{0, 1, 5, -1} {
 				for _, method := range []string{"POST", "PUT"} {
 					for _, retries := range []int{0, 1, 2} {
 						out = append(out, c15case{side: "request", lim: l, size: size, chunk: chunk, method: method, retries: retries, clientBreaksAt: -1})
@@ -317,7 +327,7 @@ func c15cases(tier string) []c15case {
 func RunC15(tier string, sh lib.Shard, rep *lib.Report) {
 	cases := c15cases(tier)
 	rep.Bounds["cases"] = len(cases)
-	rep.Rule = "full product (memory threshold, maximum) in {(8,16),(16,16),(32,16),(8,unlimited)} x size {0,mem-1,mem,mem+1,max-1,max,max+1,2max} x request framing {declared, chunked 1/5} / response write pattern {one, straddling mem, straddling max, bytewise} x method x response status {200,204,304,500} x header {-,Content-Length:0,Grpc-Status:1} x retries {0,1,2}; private $TMPDIR per worker inspected after every exchange; non-trivial = exchanges that spilled to disk or exceeded a limit"
+	rep.Rule = "full product (memory threshold, maximum) in {(8,16),(16,16),(32,16),(8,unlimited)} x size {0,mem-1,mem,mem+1,max-1,max,max+1,2max} x request framing {declared, chunked 1/5, unknown length without chunking (HTTP/2 stream)} / response write pattern {one, straddling mem, straddling max, bytewise} x method x response status {200,204,304,500} x header {-,Content-Length:0,Grpc-Status:1} x retries {0,1,2}; private $TMPDIR per worker inspected after every exchange; non-trivial = exchanges that spilled to disk or exceeded a limit"
 	rep.Require("request_spills", "response_spills", "oversized_requests", "oversized_responses", "aborted_exchanges", "broken_client_connections")
 	for i, c := range cases {
 		if !sh.Mine(i) {
